@@ -96,6 +96,27 @@ func H_bsdiff() {
 	neu := rt.Bytes("new", nnew)
 	restrict(old, alpha)
 	restrict(neu, alpha)
+	checkSeries(old, neu)
+	rt.Reach("end")
+}
+
+// H_bsdiff_edit: new = old with the byte at `pos` replaced by a fresh symbol (same length:
+// add regions that run to the end of the old file, with the delta anywhere, incl. the last
+// short read slice). Params: nold, pos, alpha, parts.
+func H_bsdiff_edit() {
+	nold, alpha := rt.Param("nold"), rt.Param("alpha")
+	old := rt.Bytes("old", nold)
+	restrict(old, alpha)
+	neu := append([]byte{}, old...)
+	e := rt.Bytes("edit", 1)
+	restrict(e, alpha)
+	neu[rt.Param("pos")] = e[0]
+	checkSeries(old, neu)
+	rt.Reach("end")
+}
+
+func checkSeries(old, neu []byte) {
+	nnew := len(neu)
 	msgs, err := diffSeries(old, neu, rt.Param("parts"), rt.Param("conc"))
 	rt.Assert(err == nil, "differ returns no error")
 	rt.Assert(len(msgs) > 0 && msgs[len(msgs)-1].Eof, "series ends with an end-of-series message")
@@ -141,5 +162,4 @@ func H_bsdiff() {
 		whole := append(append([]byte{}, o1.Bytes()...), o2.Bytes()...)
 		rt.Assert(rt.BytesEqual(whole, neu), "resuming from a saved old-offset gives the same remainder")
 	}
-	rt.Reach("end")
 }
